@@ -9,10 +9,14 @@ IMBL = "imbl::Vector modelled as list (push/pop/insert/set/remove/truncate/appen
 
 class Stream:
     def __init__(self, name, mode, cases, nontrivial, exhaustive=False, bounds="", hist_key=None, hook=False,
-                 oracles=None):
+                 oracles=None, project=None):
         self.name, self.mode, self.cases, self.nontrivial = name, mode, cases, nontrivial
         self.exhaustive, self.bounds, self.hist_key, self.hook = exhaustive, bounds, hist_key, hook
         self.oracles = oracles
+        # projection of an observation line onto the part this property speaks of: model and
+        # implementation are compared on the projection only, so that a change which breaks a
+        # neighbouring property (and its correspondence) does not raise an alarm here
+        self.project = project
 
 
 def diff_kind(case_tok):
@@ -21,6 +25,89 @@ def diff_kind(case_tok):
         if case_tok.startswith(k):
             return k
     return "?"
+
+
+import re as _re
+
+
+# ---------------------------------------------------------------- projections
+def proj_obs(kind):
+    """obs mode: keep, per call, only what the property speaks of"""
+    def f(line):
+        out = []
+        for op in line.split(" ; "):
+            toks = op.split(" ")
+            first = toks[0] if toks else ""
+            if kind == "counts":
+                out.append(first if _re.match(r"c\d+/", first) else ".")
+            elif kind == "end":
+                out.append(first if first in ("N", "true", "false") else ".")
+            elif kind == "wake":
+                out.append(("P" if first == "P" else ".") + "".join(" " + t for t in toks[1:] if t.startswith("w")))
+        return " ; ".join(out)
+    return f
+
+
+def _diff_shape(d):
+    m = _re.match(r"(Append|Reset)\[(.*)\]$", d)
+    if m:
+        return "%s#%d" % (m.group(1), 0 if m.group(2) == "" else m.group(2).count(",") + 1)
+    m = _re.match(r"Truncate\((\d+)\)$", d)
+    if m:
+        return d
+    return d.split("(")[0]
+
+
+def proj_adapt(kind):
+    """adapt mode: 'bound' keeps the length effect of every emitted diff; 'trace' keeps the poll
+    results' kinds and the input-poll traces; 'shape' keeps how many diffs each item carries"""
+    def one(line):
+        out = []
+        for ev in line.split(" ; "):
+            first = ev.split(" ")[0]
+            if first in (".", "") or first.startswith("init="):
+                out.append(first if kind == "bound" else ".")
+                continue
+            parts = []
+            for r in first.split("+"):
+                body, _, tr = r.partition("@")
+                if body.startswith("R:"):
+                    ds = body[2:].split("|")
+                    if kind == "bound":
+                        parts.append("R:" + "|".join(_diff_shape(d) for d in ds))
+                    elif kind == "shape":
+                        parts.append("R%d" % len(ds))
+                    else:
+                        parts.append("R@" + tr)
+                else:
+                    parts.append(body if kind != "trace" else body + "@" + tr)
+            out.append("+".join(parts))
+        return " ; ".join(out)
+
+    def f(line):
+        if " || " in line:
+            a, _, b = line.partition(" || ")
+            b = b.split(" ok:samediffs=")[0]
+            return one(a) + " || " + one(b)
+        return one(line)
+    return f
+
+
+def proj_none(line):
+    """C13: the property relates the two container flavours of the *implementation* to each other
+    (oracle ok:samediffs / ok:nonemptybatch on the same history); the poll-loop / container model the
+    theorems are about is the one validated line by line by C09-C12 and C14, so no separate
+    model comparison is made here"""
+    return ""
+
+
+def proj_ovec_plain(line):
+    """ovec mode for C17: return values, visited lists, contents; what subscribers receive is C05-C08"""
+    out = []
+    for op in line.split(" ; "):
+        first = op.split(" ")[0]
+        out.append("." if first[:2] in ("R:", "P", "N") or first in ("P", "N") or first.startswith(("R:", "#")) else first)
+    return " ; ".join(out)
 
 
 # ---------------------------------------------------------------- C18
@@ -124,9 +211,10 @@ def c15_streams(tier, rng):
     return [
         Stream("single-step", "adapt", gens.lts_single_step(kinds, ml, mp, flavs=("static",)), adapt_nontriv, True,
                "head/tail with a fixed limit x {unbatched,batched}: source [1..n] n<=%d x limit 0..%d x every diff; the view length is checked after every single emitted diff" % (ml, mp),
-               adapt_hist, oracles={"bound"}),
+               adapt_hist, oracles={"bound"}, project=proj_adapt("bound")),
         Stream("random", "adapt", gens.rand_adapt(rng, kinds, n, flavs=("static",)), adapt_nontriv, False,
-               "%d seeded random histories on fixed-limit head/tail" % n, adapt_hist, oracles={"bound"}),
+               "%d seeded random histories on fixed-limit head/tail" % n, adapt_hist, oracles={"bound"},
+               project=proj_adapt("bound")),
     ]
 
 
@@ -139,14 +227,14 @@ def c13_streams(tier, rng):
         Stream("single-step-ub", "adapt",
                gens.lts_single_step(("head", "tail", "skip"), ml, mp, bats=("ub",), flavs=("static",), include_bad=False),
                adapt_nontriv, True,
-               "head/tail/skip with fixed parameter: the same single-diff history on the unbatched and the batched flavour, emitted diffs compared", adapt_hist, oracles=orc),
+               "head/tail/skip with fixed parameter: the same single-diff history on the unbatched and the batched flavour, emitted diffs compared", adapt_hist, oracles=orc, project=proj_none),
         Stream("random-ub", "adapt",
                gens.rand_adapt(rng, ALL_KINDS, n, bats=("ub",), flavs=("static",), lone_polls=False), adapt_nontriv, False,
                "%d seeded random histories (multi-diff batches = transactions) on all eight adapters with fixed parameters, run on both flavours; per drain the flattened diffs must be equal; no empty batch" % n,
-               adapt_hist, oracles=orc),
+               adapt_hist, oracles=orc, project=proj_none),
         Stream("random-b", "adapt", gens.rand_adapt(rng, ALL_KINDS, n // 2, bats=("b",)), adapt_nontriv, False,
                "%d seeded random batched histories incl. dynamic limits (one batch per limit change; no empty batch)" % (n // 2),
-               adapt_hist, oracles={"nonemptybatch"}),
+               adapt_hist, oracles={"nonemptybatch"}, project=proj_none),
     ]
 
 
@@ -157,10 +245,10 @@ def c14_streams(tier, rng):
         Stream("single-step", "adapt", gens.lts_single_step(("head", "tail", "skip"), 3, 4, include_bad=False),
                adapt_nontriv, True,
                "head/tail/skip single-step block: the poll trace of every input (which input was polled, what it answered) is compared with the model's, and at every Pending each input's stored waker must be the caller's (will_wake)",
-               adapt_hist, oracles={"reg"}),
+               adapt_hist, oracles={"reg"}, project=proj_adapt("trace")),
         Stream("random", "adapt", gens.rand_adapt(rng, ALL_KINDS, n), adapt_nontriv, False,
                "%d seeded random histories with single polls interleaved after arbitrary events, ends of source / limit stream" % n,
-               adapt_hist, oracles={"reg"}),
+               adapt_hist, oracles={"reg"}, project=proj_adapt("trace")),
     ]
 
 
@@ -237,7 +325,7 @@ def obs_hist(case, obs):
     return case.split(" :: ")[0] + "/" + (ops[-3].split("(")[0] if len(ops) >= 3 else "-")
 
 
-def obs_streams(orc):
+def obs_streams(orc, project=None):
     def f(tier, rng):
         q = tier == "quick"
         ml = 2 if q else 3
@@ -245,10 +333,10 @@ def obs_streams(orc):
         return [
             Stream("exhaustive", "obs", gens.obs_exhaustive(ml), obs_nontriv, True,
                    "every sequence of <= %d calls over a 22-call alphabet (all six setters with equal / hash-equal / different values, subscribe(_reset), poll, next_now, reset, clone, drop of subscribers, clone / drop / downgrade / upgrade / into_shared of handles, counts), from a fresh handle and from a handle with one pending subscriber, on Observable, SharedObservable and through write guards" % ml,
-                   obs_hist, oracles=orc),
+                   obs_hist, oracles=orc, project=project),
             Stream("random", "obs", gens.obs_random(rng, n), obs_nontriv, False,
                    "%d seeded random histories of 10..40 calls (up to ~8 subscribers, several clones and weak references), ending with all owners dropped and every subscriber polled" % n,
-                   obs_hist, oracles=orc),
+                   obs_hist, oracles=orc, project=project),
         ]
     return f
 
@@ -258,7 +346,7 @@ PROPS.update({
                 assumptions=["single-threaded histories (thread interleavings: C02/C04)", "fewer than 2^64-1 notifying updates"],
                 level_text="Coq theorem: the implementation model (version counter + observed_version) refines, call by call and for whole histories, the specification written from the property text (current value + one unseen flag per subscriber) - for all values, equality/hash functions, numbers of subscribers and call sequences. Tied to state.rs/subscriber.rs/unique.rs/shared.rs by an exhaustive short-history run and random histories on Observable, SharedObservable and write guards, with the specification re-implemented in the harness as an independent oracle.",
                 level_note="Trusted: Coq kernel, extraction, harness; locks/Arc at operation granularity; version counter unbounded."),
-    "C19": dict(streams=obs_streams({"spec"}), trusted=OBS_TRUST,
+    "C19": dict(streams=obs_streams({"counts"}, proj_obs("counts")), trusted=OBS_TRUST,
                 assumptions=["default (sync) lock flavour; the async flavour is handled with C16"],
                 strength="full for the default lock flavour; async flavour: see C16 / known findings",
                 level_text="Coq theorems: the four count functions report exactly the populations of owners, live subscribers and weak references, and every call changes those populations by exactly the handles it creates or drops (delta table), in every reachable state. Tied to the crate by calling the real count functions inside the C01 histories (counts is part of the alphabet) and comparing with the model and with the harness's own handle bookkeeping.",
@@ -282,7 +370,7 @@ def ovec_hist(case, obs):
     return case.split(" :: ")[0] + "/" + ("txn" if "tb" in ops else "direct") + "/" + ("lagged" if "Reset" in obs else "window") + "/" + (kinds[0] if len(kinds) == 1 else "mixed")
 
 
-def ovec_streams(kind, orc):
+def ovec_streams(kind, orc, project=None):
     def f(tier, rng):
         q = tier == "quick"
         n = 4000 if q else 150000
@@ -291,24 +379,24 @@ def ovec_streams(kind, orc):
             st.append(Stream("exhaustive", "ovec", gens.ovec_exhaustive(2 if q else 3, (16,) if kind == "c05" else (2, 16)),
                              ovec_nontriv, True,
                              "every sequence of <= %d direct calls over 11 calls (incl. out-of-range and the documented no-ops) x start [] / [1,2,3] x plain/batched stream x poll-after-each / drain-at-end" % (2 if q else 3),
-                             ovec_hist, oracles=orc))
+                             ovec_hist, oracles=orc, project=project))
         if kind == "c17":
             st.append(Stream("traversal", "ovec", gens.ovec_traversal_exhaustive(4 if q else 5), ovec_nontriv, True,
                              "every decision sequence keep/set/remove/set-then-remove/stop over vectors of <= %d items, directly and inside a committed / dropped transaction; every index 0..len+2 for insert/set/remove/truncate/entry" % (4 if q else 5),
-                             ovec_hist, oracles=orc))
+                             ovec_hist, oracles=orc, project=project))
         if kind in ("c06", "c08"):
             st.append(Stream("lag-block", "ovec", gens.ovec_lag_block((1, 2, 3, 5, 16)), ovec_nontriv, True,
                              "k operations then poll for k = 0..cap2+3 at capacities 1,2,3,5,16, second subscriber created midway, multi-diff transaction in the backlog, with and without dropping the vector before polling",
-                             ovec_hist, oracles=orc))
+                             ovec_hist, oracles=orc, project=project))
             st.append(Stream("exhaustive-smallcap", "ovec", gens.ovec_exhaustive(2 if q else 3, (1, 2, 3)), ovec_nontriv, True,
-                             "every sequence of <= %d direct calls at capacities 1,2,3" % (2 if q else 3), ovec_hist, oracles=orc))
+                             "every sequence of <= %d direct calls at capacities 1,2,3" % (2 if q else 3), ovec_hist, oracles=orc, project=project))
         if kind == "c07":
             st.append(Stream("txn-exhaustive", "ovec", gens.ovec_txn_exhaustive(2 if q else 3), ovec_nontriv, True,
                              "every transaction body of <= %d operations over 16 (mutators, clear, rollback, entry ops, a subscriber dropped mid-body) x commit / drop / rollback+drop / rollback+commit x 0/1/2 subscribers, followed by a direct call" % (2 if q else 3),
-                             ovec_hist, oracles=orc))
+                             ovec_hist, oracles=orc, project=project))
         st.append(Stream("random", "ovec", gens.ovec_random(rng, n, lagbias=(kind in ("c06", "c08"))), ovec_nontriv, False,
                          "%d seeded random histories of 3..60 operations: all mutators (5%% out of range), entry traversals, transactions with rollbacks, up to 4 subscribers of both flavours created and dropped at any time, polls and drains, capacities 1..16%s" % (n, ", low poll rates" if kind in ("c06", "c08") else ""),
-                         ovec_hist, oracles=orc))
+                         ovec_hist, oracles=orc, project=project))
         return st
     return f
 
@@ -330,7 +418,7 @@ PROPS.update({
                 assumptions=["as C06"],
                 level_text="Coq theorems for every capacity and polling pattern: a poll reports the end only after the vector is dropped, and then the replica equals the final contents - also for a subscriber lagged beyond capacity (after the repair of handle_lag's Closed arm) or in the middle of a batch; a Pending subscriber is registered and the drop wakes every registered subscriber. Tied to the crate by histories ending in drop + drain in all four lag situations.",
                 level_note="Trusted: as C05. Finding F2 (stale final state after lag + drop) was repaired in 0590f0c."),
-    "C17": dict(streams=ovec_streams("c17", {"plain"}), trusted=OVEC_TRUST,
+    "C17": dict(streams=ovec_streams("c17", {"plain"}, proj_ovec_plain), trusted=OVEC_TRUST,
                 assumptions=[],
                 level_text="Coq theorems: ObservableVector's and the transaction's mutators leave and return exactly what the plain-list operation does; insert/set/remove panic exactly when out of range and a panicking call has no effect; for_each/entries never panics, hands every original element to the closure once in order with its current index, and leaves the decisions' results followed by the untouched rest (cursor invariant). Tied to vector.rs/entry.rs/transaction.rs by exhaustive decision sequences and all indices 0..len+2, compared with a plain Vec in the harness.",
                 level_note="Trusted: as C05."),
@@ -364,7 +452,8 @@ def c19_streams(tier, rng):
     n = 2000 if q else 50000
     st.append(Stream("async", "obs", gens.obs_exhaustive(2 if q else 3, heads=AHEADS) + gens.obs_random(rng, n, heads=AHEADS),
                      obs_nontriv, False,
-                     "the same histories (count functions included) on the async-lock flavour", obs_hist, oracles={"spec"}))
+                     "the same histories (count functions included) on the async-lock flavour", obs_hist, oracles={"counts"},
+                     project=proj_obs("counts")))
     return st
 
 
@@ -419,7 +508,7 @@ def conc_streams(orc, with_lin=False, with_seq=None):
         q = tier == "quick"
         st = []
         if with_seq:
-            st += obs_streams(with_seq)(tier, rng)
+            st += obs_streams(with_seq[0], with_seq[1])(tier, rng)
         st.append(Stream("schedules-exhaustive", "conc", gens.conc_exhaustive(), conc_nontriv, True,
                          "every schedule (sequence of thread releases over the pause points, length covering all micro-steps) of 12 two-thread configurations: poller x setter, poller x last-clone dropper, two droppers of the last two / two of three clones, dropper x upgrader, setter x dropper, two setters, setter x getter, cloner x dropper; with and without an already-pending subscriber",
                          conc_hist, hook=True, oracles=orc))
@@ -437,12 +526,12 @@ def conc_streams(orc, with_lin=False, with_seq=None):
 
 
 PROPS.update({
-    "C02": dict(streams=conc_streams({"wake", "nopanic"}, with_seq={"wake", "spec"}), hook=True, trusted=CONC_TRUST,
+    "C02": dict(streams=conc_streams({"wake", "nopanic"}, with_seq=({"wake"}, proj_obs("wake"))), hook=True, trusted=CONC_TRUST,
                 assumptions=["locks behave as modelled; sequentially consistent steps"],
                 strength="full for the protocol as modelled (operation granularity + lock granularity); partial w.r.t. the runtime: lock implementation, memory ordering and OS scheduling are assumed / sampled",
                 level_text="Coq theorems at operation granularity (any history: a Pending poll registers its waker; every version change wakes the whole list and empties it; a registered waker stays registered until woken) and, once the micro-step model's proofs are in, at lock granularity for every schedule. Tied to the crate at operation granularity by the C01 histories with wake counters compared after every call, and at thread granularity by forced schedules over pause points inside poll/set/close/drop/upgrade (exhaustive for two-thread configurations) with real threads.",
                 level_note="Trusted: Coq kernel, extraction, harness; std RwLock/Arc as modelled; the director's timeouts. PARTIAL w.r.t. the runtime (see strength)."),
-    "C03": dict(streams=conc_streams({"notearly", "ended", "wake", "nopanic"}, with_seq={"spec"}), hook=True, trusted=CONC_TRUST,
+    "C03": dict(streams=conc_streams({"notearly", "ended", "nopanic"}, with_seq=({"endspec"}, proj_obs("end"))), hook=True, trusted=CONC_TRUST,
                 assumptions=["locks and Arc counters behave as modelled"],
                 strength="full for the protocol as modelled; runtime caveats as C02",
                 level_text="Coq theorems at operation granularity: a poll answers None iff no owner exists, only the drop of the last owner ends the stream (not into_shared, downgrade, dropping some clones / subscribers / weak references), it stays ended with get/read returning the last value, upgrade succeeds iff an owner exists; at lock granularity (once the micro-step proofs are in): with the repaired Drop the state is closed iff no owner is left at every quiescent point of every schedule, and the original Drop is refuted by a 4-step schedule. Tied to the crate by the C01 histories and by forced schedules of two and three concurrent droppers / upgraders at the pause point between the 'am I last?' decision and the release.",
